@@ -582,4 +582,33 @@ theorem facts_decrpm (hostBg : Option (Nat × Nat × Nat)) (e : Emu) (pd : Int) 
     of `startupGroups` — so `startupQueries` is what the source sends, in source order. -/
 theorem facts_queries : (queryWire.map fun w => allMatch w startupGroups) = some true := by decide
 
+/-- **The wire, against the renderer's templates** (sequences.go, regenerated): for every value of
+    the arguments, the bytes `render()` / `showCursor()` / the writer produce from the template parse
+    to the sequences `opsOf` hands to the emulator model — CUP (`cup`), OSC 8 (`osc8`), pointer shape
+    (`mouseShape`), DECSCUSR (`cursorStyleSet`), mode 25 set / reset (`decset` / `decrst`,
+    `cursorVisibility`), SGR reset (`sgrReset`). (The SGR colour / attribute templates are tied to the
+    tokens by C01's tokenizer stream; `sgrParam` only splits `p:s1:s2` into main value and
+    sub-parameters.) -/
+theorem facts_wire (dec : String → G) (tw : String → Nat) (r c : Int) (n : Nat) (p u sh : String) :
+    wireMatches (instFmt (strC "cup") [intBytes r, intBytes c]) (opsOf dec tw (.cup r c)) = true ∧
+    wireMatches (instFmt (strC "osc8") [dec p, dec u]) (opsOf dec tw (.osc8 p u)) = true ∧
+    wireMatches (instFmt (strC "mouseShape") [dec sh]) (opsOf dec tw (.pointer sh)) = true ∧
+    wireMatches (instFmt (strC "cursorStyleSet") [intBytes n]) (opsOf dec tw (.cursorStyle n)) = true ∧
+    wireMatches (instFmt (fmtF "decset") [intBytes (numC "cursorVisibility")]) (opsOf dec tw (.decset 25)) = true ∧
+    wireMatches (instFmt (fmtF "decrst") [intBytes (numC "cursorVisibility")]) (opsOf dec tw (.decrst 25)) = true ∧
+    wireMatches (strC "sgrReset") (opsOf dec tw (.sgr [])) = true := by
+  have h1 : strC "cup" = [27, 91, 37, 100, 59, 37, 100, 72] := by decide
+  have h2 : strC "osc8" = [27, 93, 56, 59, 37, 115, 59, 37, 115, 27, 92] := by decide
+  have h3 : strC "mouseShape" = [27, 93, 50, 50, 59, 37, 115, 27, 92] := by decide
+  have h4 : strC "cursorStyleSet" = [27, 91, 37, 100, 32, 113] := by decide
+  refine ⟨?_, ?_, ?_, ?_, rfl, rfl, rfl⟩
+  · rw [h1]
+    simp [instFmt, opsOf, wireMatches, csiWire, paramBytes, List.intercalate]
+  · rw [h2]
+    simp [instFmt, opsOf, wireMatches, osc8Payload]
+  · rw [h3]
+    simp [instFmt, opsOf, wireMatches, osc22Payload]
+  · rw [h4]
+    simp [instFmt, opsOf, wireMatches, csiWire, paramBytes, List.intercalate]
+
 end VaxisModel.Props.C12
